@@ -235,7 +235,10 @@ func Main[C any](s Spec[C], args []string) int {
 	}
 	seed, _ := strconv.ParseInt(os.Getenv("VERIF_SEED"), 10, 64)
 	nw := *workers
-	if s.Workers > 0 {
+	if v, err := strconv.Atoi(os.Getenv("VERIF_WORKERS")); err == nil && v > 0 {
+		// (set by bin/check for its single-worker re-run after the process died inside rux, see run_check)
+		nw = v
+	} else if s.Workers > 0 {
 		nw = s.Workers
 	}
 	if nw <= 0 {
